@@ -19,7 +19,10 @@ CLAUSES = (
     'prerequisites (ignoring only points beyond the stop point); the stall '
     'check runs only when nothing updated and no stop is in progress and not '
     'while paused; a finished task is removed only if its outputs are '
-    'complete. Not decided: liveness ("never leaves a ready task unsubmitted '
+    'complete; every change of membership of active_tasks sets '
+    'active_tasks_changed before any TaskPool method that reads the cached '
+    'get_tasks() list is called (the stall test, the runahead base point '
+    'and the future-offset scan see the true pool). Not decided: liveness ("never leaves a ready task unsubmitted '
     'indefinitely").')
 
 S = 'scheduler'
@@ -27,6 +30,8 @@ TP = 'task_pool'
 
 
 def check(c):
+    from rules._shared import pool_cache_rules
+    pool_cache_rules(c, 'C03.pool-cache')
     # ---- auto shutdown
     cas = c.func(S, 'Scheduler.check_auto_shutdown')
     trues = [r for r in c.idx.walk(cas.node) if isinstance(r, ast.Return)
@@ -256,6 +261,31 @@ def check(c):
 
 
 VARIANTS = [
+    ('flag-after-offset-scan', 'cylc/flow/task_pool.py',
+     '''        self.active_tasks[itask.point][itask.identity] = itask
+        self.active_tasks_changed = True
+        LOG.debug(f"[{itask}] added to the n=0 window")
+
+        self.create_data_store_elements(itask)
+
+        if itask.tdef.max_future_prereq_offset is not None:
+            # (Must do this once added to the pool).
+            self.set_max_future_offset()
+''', '''        self.active_tasks[itask.point][itask.identity] = itask
+        LOG.debug(f"[{itask}] added to the n=0 window")
+
+        self.create_data_store_elements(itask)
+
+        if itask.tdef.max_future_prereq_offset is not None:
+            # (Must do this once added to the pool).
+            self.set_max_future_offset()
+        self.active_tasks_changed = True
+''', 'C03.pool-cache'),
+    ('removal-keeps-cache', 'cylc/flow/task_pool.py',
+     '''            self.tasks_removed = True
+            self.active_tasks_changed = True
+''', '''            self.tasks_removed = True
+''', 'C03.pool-cache'),
     ('shutdown-ignores-preparing', 'cylc/flow/scheduler.py',
      '''                if itask.state(
                     TASK_STATUS_PREPARING,
